@@ -427,8 +427,10 @@ class Worker:
                 # If any of the selected tasks ancestor tasks are cancelled
                 # then discard this one too. Each breadcrumb (bcb) is a
                 # task address (unique system-wide task id) of an ancestor
-                # task.
-                # TODO: do I need to manually remove addr from self._tasks?
+                # task. The task will never run, so forget it: it arrived
+                # after its ancestor's cancel was processed, and nothing
+                # else would ever remove it.
+                self._tasks.pop(addr).cancel()
                 continue
 
             return task
